@@ -55,6 +55,25 @@ def callSound (fuel : Nat) (env : Env) (c : Call) : Prop :=
   | .schema s, .val v => validF fuel env s v = true
   | _, _ => True
 
+/-- the JSON shape a `_negative_type` strategy tag promises (`STRATEGIES_FOR_TYPE`, non-integer floats for
+    "number-nonint") -/
+def tagOk (tag : String) (v : Json) : Bool :=
+  match v with
+  | .num _ e => tag == "number" || (tag == "integer" && e == 0) || (tag == "number-nonint" && e != 0)
+  | .bool _ => tag == "boolean"
+  | .null => tag == "null"
+  | .str _ => tag == "string"
+  | .arr _ => tag == "array"
+  | .obj _ => tag == "object"
+
+/-- oracle contract used by the end-to-end theorems: schema requests are answered with valid instances
+    (hypothesis-jsonschema), `_negative_type` draws have the JSON type of their strategy (Hypothesis) -/
+def oracleOk (fuel : Nat) (env : Env) (c : Call) : Prop :=
+  match c.req, c.ans with
+  | .schema s, .val v => validF fuel env s v = true
+  | .strategy "negative_type" (.str tag), .val v => tagOk tag v = true
+  | _, _ => True
+
 /-- integer instance against the numeric keyword family, in arithmetic form (effective bounds of the repaired
     reading: a draft-4 `true` tightens the inclusive bound by one, a numeric exclusive bound combines with it) -/
 def NumKw.okInt (k : NumKw) (n : Int) : Prop :=
@@ -67,5 +86,15 @@ def plainKeys (kvs : List (String × Json)) : Prop :=
   Json.lookup "$ref" kvs = none ∧ Json.lookup "enum" kvs = none ∧ Json.lookup "const" kvs = none ∧
   Json.lookup "format" kvs = none ∧ Json.lookup "allOf" kvs = none ∧ Json.lookup "anyOf" kvs = none ∧
   Json.lookup "oneOf" kvs = none ∧ Json.lookup "not" kvs = none
+
+/-- a "plain numeric schema": an object schema of type integer / number whose constraining keywords all belong to
+    the numeric family (any number of annotation keywords next to them), keys unique as in a Python dict -/
+structure PlainNumeric (kvs : List (String × Json)) : Prop where
+  noShadow : ∀ k v, (k, v) ∈ kvs → Json.lookup k kvs = some v
+  typed : ∃ t, Json.lookup "type" kvs = some (.str t) ∧ (t = "integer" ∨ t = "number")
+  keys : ∀ k v, (k, v) ∈ kvs →
+    k = "type" ∨ k = "maximum" ∨ k = "minimum" ∨ k = "exclusiveMaximum" ∨ k = "exclusiveMinimum" ∨ k = "multipleOf" ∨
+    armOf k = Arm.other
+  plain : plainKeys kvs
 
 end SV.Spec.C03
